@@ -131,6 +131,9 @@ def run(sim, sc):
                 # by the post-phase request below
                 if r.via == 'post':
                     sim.violation('backlog:idle-server-turned-a-request-away', {'request': r.brief()})
+                elif r.timeout is not None and r.timeout >= 50 and not any(
+                        q is not r and (q.kind == 'cancelled' or (q.kind == 'full' and not q.bp)) and q.t1 is not None and r.t0 <= q.t1 < r.t1 - 1e-6 for q in out.recs):
+                    sim.violation('backlog:waiter-never-woken-although-slots-were-returned', {'request': r.brief()})
                 elif exact and r.timeout is not None and r.t1 - r.t0 < 0.99 * r.timeout - eps:
                     sim.violation('backpressure:gave-up-waiting-before-timeout', {'request': r.brief()})
                 sim.count('rejected_after_wait')
